@@ -542,6 +542,21 @@ def nd2(F, R):
 # ---------------------------------------------------------------- ND3: N and capacity are only bounds
 def nd3(F, R):
     n_cap = 0
+    # the constructor's capacity argument sizes the vertex store only: the group tables have the fixed size the limits speak of
+    ctor = F.fn("Sodg", "empty")
+    if ctor is not None:
+        for site, kind, s in ctor.sites():
+            if kind == "stmt" and s["k"] == "assign" and s["rv"]["k"] == "aggregate" and s["rv"].get("adt") == "Sodg":
+                fs = dict(ctor.expr_rvalue(s["rv"], site)[3])
+                for fname in ("stores", "branches"):
+                    v = fs.get(fname)
+                    if v is not None and mentions(v, lambda x: x == ("param", 1)):
+                        R.bad("ND3", "ND3/Sodg::empty/group-table-size-depends-on-capacity", ctor.where(site),
+                              "the size of the `%s` table is computed from the capacity given to empty(): how many groups can be alive "
+                              "(and therefore which vertices get collected) differs between graphs of different capacity" % fname,
+                              {fname: show(v, ctor)[:200]})
+                    elif v is not None:
+                        R.ok("ND3", ctor.where(site), "the `%s` table does not depend on the constructor's capacity argument" % fname)
     for b in F.all_bodies():
         if b.self_adt != "Sodg":
             continue
